@@ -250,3 +250,10 @@ Print Assumptions C19_parse_token_sound.
 Print Assumptions C19_resolve_notation_legal.
 Print Assumptions C19_book_moves_legal_once_notation.
 Print Assumptions C19_book_edges_legal_threaded.
+
+(* the hypothesis [key_ignores_clocks key] of C19_book_moves_legal_once_threaded / C19_book_edges_legal_threaded holds
+   for the Zobrist key of the position model, for any tables (in particular PosTabs.real_tabs, the engine's randoms) *)
+Theorem C19_key_of_ignores_clocks :
+  forall t : PosImpl.tabs, key_ignores_clocks (PosProofsA.key_of t).
+Proof. exact key_of_core. Qed.
+Print Assumptions C19_key_of_ignores_clocks.
